@@ -185,7 +185,7 @@ kf("C19", "C19-template-close-ge", "`vec2<f32>=...` (no space between a template
 # ---------------------------------------------------------------- C11 (diagnostics)
 kf("C11", "C11-silent-expect", "a missing ')' ']' or '>' was silently accepted by Parser.expect: `f(1, 2;`, `o[0;`, `@group(0 @binding(0)` compiled, or the error was reported at an unrelated earlier position",
    ["C11|unbalanced-delimiter|*"], "fixed:dd2be53")
-kf("C11", "C11-const-div-zero-contexts", "integer division/remainder by zero in a constant expression is diagnosed only in module-scope `const` / untyped `var<private>` initialisers, @group/@binding arguments and `case` selectors; everywhere else the program compiles: function bodies (`acc = 1 / 0;`, `const t = 1 % 0;`, `let t = KC / KZ;`), array sizes (`array<i32, (3 / 0)>`), `@workgroup_size((1 / 0))`, @align/@size/@location arguments, override and typed `var<private> p: i32 = 1 / 0` initialisers, `const_assert 4 == (1 / 0)`",
+kf("C11", "C11-const-div-zero-contexts", "integer division/remainder by zero in a constant expression is diagnosed only in module-scope `const` initialisers and `case` selectors; everywhere else that was enumerated the program compiles: function bodies (`acc = 1 / 0;`, `const t = 1 % 0;`, `let t = KC / KZ;`), array sizes (`array<i32, (3 / 0)>`), `@workgroup_size((1 / 0))`, @align/@size/@location arguments, override and typed `var<private> p: i32 = 1 / 0` initialisers, `const_assert 4 == (1 / 0)`",
    ["C11|const-div-zero@workgroup_size|accepted|*", "C11|const-mod-zero@workgroup_size|accepted|*", "C11|const-div-zero@array-size|accepted|*", "C11|const-mod-zero@array-size|accepted|*",
     "C11|G:const-div-zero(*|accepted|*", "C11|M:const-div-zero(*|accepted|*",
     "C11|const-div-zero@const|accepted|rich/*", "C11|const-mod-zero@const|accepted|rich/*", "C11|const-div-zero@const_assert|accepted|rich/*", "C11|const-mod-zero@const_assert|accepted|rich/*"])
